@@ -1,6 +1,7 @@
 import QM.Refine
 import QM.Proc
 import QM.Conform
+import QM.ProcLocal
 /-! # C08, C09, C10 — the conversion loop refines an order-free, declarative name resolution
 
 `Refine.run` is the loop of `process` in the abstract: a name table pre-filled before the loop
@@ -62,5 +63,87 @@ theorem C08_service_suffixes :
     suffixOf (s "container") = [] ∧ suffixOf (s "kube") = [] ∧ suffixOf (s "volume") = s "-volume" ∧
     suffixOf (s "network") = s "-network" ∧ suffixOf (s "image") = s "-image" ∧ suffixOf (s "build") = s "-build" ∧
     suffixOf (s "pod") = s "-pod" := by decide
+
+
+/-! ### the same statements for the concrete model `Cv.sys` that is run against the code
+
+`Cv.sys isUser` (QM/Proc.lean) is the conversion loop of `process` with the real converter models; `Driver.convertOp`
+executes exactly `Refine.step (Cv.sys isUser)` and is compared with the repository's loop on unit sets in sorted and
+unsorted orders.  `Cv.sys_local` (QM/ProcLocal.lean) discharges the hypotheses of the abstract theorem for it:
+every converter model reads the name table only at the names in its static read set (`readsOf`; congruence lemmas for
+all handlers and all seven converters), whatever it reads is published by a unit of strictly lower priority or never
+rewritten (priorities from the table extracted from main.rs; file-name extension lemmas), and a container can only
+link to a `.pod`, which sorts strictly later. -/
+
+/-- C08 (concrete): for every set of loadable units with distinct file names and **every** priority-sorted processing
+    order, the loop gives every unit exactly its declarative result: its converter run against the final name table
+    (every referenced unit's published name) and the complete list of the containers that joined it -/
+theorem C08_process_concrete (isUser : Bool) (units order : List QUnit) (hl : Loadable units)
+    (hd : (units.map QUnit.name).Nodup) (hp : order.Perm units) (hs : SortedByPrio order) :
+    runOrder isUser units order = order.map (fun u => (u, Refine.decl (sys isUser) units order u)) :=
+  Refine.run_refines (sys isUser) units order (sys_local isUser units hl) hd hp hs
+
+/-- … in particular for the order the model's own sort picks (no hypothesis on the order left) -/
+theorem C08_processUnits (qs : List QUnit) (hl : Loadable qs) (hd : (qs.map QUnit.name).Nodup) :
+    processUnits qs = (sortByPrio qs).map (fun u => (u, Refine.decl (sys false) qs (sortByPrio qs) u)) :=
+  C08_process_concrete false qs (sortByPrio qs) hl hd (sortByPrio_perm qs) (sortByPrio_sorted qs)
+
+/-- C08/C10 (concrete): two priority-sorted processing orders of the same units give every unit the same result up to
+    the order of the containers a pod accumulated -/
+theorem C08_order_irrelevant (isUser : Bool) (units o₁ o₂ : List QUnit) (hl : Loadable units)
+    (hd : (units.map QUnit.name).Nodup) (h₁ : o₁.Perm units) (h₂ : o₂.Perm units) (s₁ : SortedByPrio o₁) (s₂ : SortedByPrio o₂)
+    (u : QUnit) (hu : u ∈ units) :
+    ∃ a₁ a₂, a₁.Perm a₂ ∧
+      (u, convOut isUser (Refine.fin (sys isUser) units) a₁ u) ∈ runOrder isUser units o₁ ∧
+      (u, convOut isUser (Refine.fin (sys isUser) units) a₂ u) ∈ runOrder isUser units o₂ := by
+  refine ⟨o₁.filterMap (Refine.linkTo (sys isUser) units u.name), o₂.filterMap (Refine.linkTo (sys isUser) units u.name),
+    Refine.members_perm (sys isUser) units o₁ o₂ (h₁.trans h₂.symm) u.name, ?_, ?_⟩
+  · rw [C08_process_concrete isUser units o₁ hl hd h₁ s₁]
+    exact List.mem_map.mpr ⟨u, h₁.symm.subset hu, rfl⟩
+  · rw [C08_process_concrete isUser units o₂ hl hd h₂ s₂]
+    exact List.mem_map.mpr ⟨u, h₂.symm.subset hu, rfl⟩
+
+/-- C09 (concrete): the service files a pod is given to start are exactly those of the containers whose conversion
+    (against the final name table) reaches `handle_pod` with that pod and StartWithPod on — no more, no fewer -/
+theorem C09_members_concrete (isUser : Bool) (units order : List QUnit) (pod w : Str) :
+    w ∈ order.filterMap (Refine.linkTo (sys isUser) units pod) ↔
+      ∃ c ∈ order, linkOf isUser c (Refine.fin (sys isUser) units) = some (pod, w) := by
+  simp only [List.mem_filterMap]
+  have e : ∀ c, (sys isUser).link c (Refine.fin (sys isUser) units) = linkOf isUser c (Refine.fin (sys isUser) units) := fun _ => rfl
+  constructor
+  · rintro ⟨c, hc, h⟩
+    refine ⟨c, hc, ?_⟩
+    unfold Refine.linkTo at h
+    rw [e] at h
+    cases hl : linkOf isUser c (Refine.fin (sys isUser) units) with
+    | none => rw [hl] at h; simp at h
+    | some p =>
+      obtain ⟨m, w'⟩ := p
+      rw [hl] at h
+      simp only at h
+      split at h
+      · rename_i hm; simp at h; subst hm; subst h; rfl
+      · simp at h
+  · rintro ⟨c, hc, h⟩
+    refine ⟨c, hc, ?_⟩
+    unfold Refine.linkTo
+    rw [e, h]
+    simp
+
+/-- C10 (concrete): adding units changes nothing for a unit that neither reads them nor is joined by them -/
+theorem C10_independent_concrete (isUser : Bool) (units extra order order' : List QUnit) (u : QUnit)
+    (hfin : ∀ n ∈ readsOf u, Refine.fin (sys isUser) (units ++ extra) n = Refine.fin (sys isUser) units n)
+    (hlinks : order'.filterMap (Refine.linkTo (sys isUser) (units ++ extra) u.name) = order.filterMap (Refine.linkTo (sys isUser) units u.name)) :
+    Refine.decl (sys isUser) (units ++ extra) order' u = Refine.decl (sys isUser) units order u :=
+  Refine.C10_independent (sys isUser) units extra order order' u
+    (fun t₁ t₂ a h => convOut_congr isUser t₁ t₂ a u h) hfin hlinks
+
+/-- the hypotheses are satisfiable: a pod, a container that joins it, a volume the container mounts -/
+example : Loadable [⟨s "/q/a.volume", []⟩, ⟨s "/q/p.pod", []⟩, ⟨s "/q/c.container", []⟩] ∧
+    ([⟨s "/q/a.volume", []⟩, ⟨s "/q/p.pod", []⟩, ⟨s "/q/c.container", []⟩] : List QUnit).map QUnit.name
+      = [s "a.volume", s "p.pod", s "c.container"] := by
+  constructor
+  · intro q hq; simp at hq; rcases hq with rfl | rfl | rfl <;> decide
+  · decide
 
 end Cv
